@@ -441,7 +441,9 @@ def refusals_of(fi, with_options: bool = False):
                             merged[k] = v
                         else:
                             # what the name abbreviates depends on the test: a conditional expression says exactly that
-                            phi = ast.IfExp(test=test, body=v, orelse=enve[k])
+                            from .canon import _positive
+                            pt_, sw_ = _positive(test)
+                            phi = ast.IfExp(test=pt_, body=enve[k] if sw_ else v, orelse=v if sw_ else enve[k])
                             if len(U(phi)) <= 300 and not any(isinstance(x_, ast.Name) and x_.id == k for x_ in ast.walk(test)):
                                 merged[k] = phi
                 env.clear()
